@@ -10,6 +10,7 @@ CONSTANTS
   Emit,         \* "none" | "states" | "classes" : which behaviours are printed for replay
   RootViaSet,   \* subset of RootVias used for root edits
   WithBarrierOnly, WithFinalize, WithDrop, WithMany, WithWeak, WithUnlink, WithDebtCalls, WithLeak,
+  DFaultAts,    \* set of destructor-run indices at which a destructor panic may be injected ({} = none)
   FaultAts      \* set of trace-call indices at which a trace panic may be injected ({} = no faults)
 
 VARIABLES h, hist,
@@ -57,7 +58,7 @@ ClassOf(s, op, s2) ==
               THEN CallSig(s, "finish_marking", 0, "P1", FALSE, NoFaultRec) ELSE <<>>,
          Count(s) - Count(s2) > 0, s.gray # <<>>, s.grayAgain # <<>>, s.rootNT,
          IF op.op = "finalize" THEN <<Col(s2, op.t), op.t # NoObj>> ELSE <<>>,
-         Fld(op, "n"), Fld(op, "mode") >>
+         Fld(op, "n"), Fld(op, "mode"), Fld(op, "dat") >>
   ELSE <<op.op, Fld(op, "path"), Fld(op, "via"), ObsPhase(s), Col(s, p), Col(s, c),
          IF p = NoObj THEN "-" ELSE s.kind[p], PosOf(s, p), PosOf(s, c), s2.gray # s.gray \/ s2.grayAgain # s.grayAgain,
          Fld(op, "panic")>>
@@ -187,8 +188,11 @@ CallA ==
   \/ \E kind \in {"finish_marking", "finish_cycle"} :
        Do(Call(h, kind, 0, "P1", FALSE), [op |-> "call", kind |-> kind, b |-> 0, g |-> "P1", cont |-> FALSE])
   \/ /\ WithDebtCalls
+     \* (cont: the pacing under which a collector that has finished its cycle still owes debt; mark_debt and
+     \* cycle_debt stop where they are documented to stop all the same)
      /\ \E kind \in {"mark_debt", "cycle_debt"}, b \in Budgets \cup {0}, g \in Grans :
-          Do(Call(h, kind, b, g, FALSE), [op |-> "call", kind |-> kind, b |-> b, g |-> g, cont |-> FALSE])
+          \E cont \in (IF b = 0 THEN {FALSE} ELSE BOOLEAN) :
+            Do(Call(h, kind, b, g, cont), [op |-> "call", kind |-> kind, b |-> b, g |-> g, cont |-> cont])
   \/ /\ WithDebtCalls
      /\ \E b \in Budgets \cup {0}, g \in Grans, cont \in BOOLEAN :
           Do(Call(h, "collect_debt", b, g, cont), [op |-> "call", kind |-> "collect_debt", b |-> b, g |-> g, cont |-> cont])
@@ -197,13 +201,29 @@ CallA ==
 FaultPos == 0..MaxKids \cup {AllPos}
 CallFaultA ==
   \E at \in FaultAts, pos \in FaultPos :
-    LET f == [at |-> at, pos |-> pos] IN
+    LET f == [at |-> at, pos |-> pos, dat |-> -1] IN
     \/ \E kind \in {"finish_marking", "finish_cycle"} :
          Do(CallF(h, kind, 0, "P1", FALSE, f),
             [op |-> "call", kind |-> kind, b |-> 0, g |-> "P1", cont |-> FALSE, fault |-> f])
     \/ \E kind \in {"mark_debt", "collect_debt"}, b \in Budgets, g \in Grans :
          Do(CallF(h, kind, b, g, FALSE, f),
             [op |-> "call", kind |-> kind, b |-> b, g |-> g, cont |-> FALSE, fault |-> f])
+
+\* a collection call (or the arena's drop) during which the k-th user destructor panics.  Not one of the
+\* faults C11 lists, but the crate takes care of it (the order of set_live and drop_in_place in sweep_one,
+\* the resuming guard in Drop for Context), and "destructed exactly once" (C04), "is_dropped is exact"
+\* (C05) speak about every history.
+CallDFaultA ==
+  \E dat \in DFaultAts :
+    LET f == [at |-> -1, pos |-> 0, dat |-> dat] IN
+    \/ Do(CallF(h, "finish_cycle", 0, "P1", FALSE, f),
+          [op |-> "call", kind |-> "finish_cycle", b |-> 0, g |-> "P1", cont |-> FALSE, fault |-> f])
+    \/ /\ WithDebtCalls
+       /\ \E kind \in {"cycle_debt", "collect_debt"}, b \in Budgets :
+            Do(CallF(h, kind, b, "P1", FALSE, f),
+               [op |-> "call", kind |-> kind, b |-> b, g |-> "P1", cont |-> FALSE, fault |-> f])
+    \/ /\ WithDrop
+       /\ Do(DropAllF(h, dat), [op |-> "drop_arena", dat |-> dat])
 
 \* a callback that panics after its last step: the arena stays as the callback left it, except
 \* that map_root / try_map_root consume the arena (everything is dropped during the unwind)
@@ -250,7 +270,7 @@ Mutator == \/ AllocRootA \/ AllocIntoA \/ AllocTempA \/ LinkA \/ RootRemoveA
            \/ (WithUnlink /\ (UnlinkA \/ RootAddA))
            \/ (WithWeak /\ (WLinkA \/ WUnlinkA \/ RootWAddA \/ RootWRemoveA \/ UpgradeStoreA))
            \/ BarrierOnlyA \/ LinkManyA \/ LinkByManyA \/ PanicCbA \/ LeakA
-Collector == CallA \/ StartSweepingA \/ FinalizeA \/ CallFaultA
+Collector == CallA \/ StartSweepingA \/ FinalizeA \/ CallFaultA \/ CallDFaultA
 
 Next == (Running /\ (Mutator \/ DynMutator \/ Collector \/ DropArenaA)) \/ HandleOps
 
